@@ -79,6 +79,7 @@ def consts(cfg, which, tracefile=None):
     d["MaxReq"] = str(cfg["maxReq"])
     d["Renom"] = "TRUE" if cfg["renom"] else "FALSE"
     d["NomBase"] = str(cfg.get("nomBase", 0))
+    d["Miss"] = "{" + ", ".join(q(x) for x in cfg.get("miss", [])) + "}"
     d["Lite"] = "[A |-> %s, B |-> %s]" % tuple("TRUE" if cfg["lite"][a] else "FALSE" for a in "AB")
     d["CheckPrio"] = "[A |-> %s, B |-> %s]" % tuple("TRUE" if cfg["checkPrio"][a] else "FALSE" for a in "AB")
     if which == "mc":
@@ -145,7 +146,7 @@ def gen_tr(workdir, name, cfg, tracefile):
 def gen_mon(workdir, name, cfg, tracefile, predicates):
     t = cfg["tr"]
     c = consts(cfg, "tr")
-    d = {"D": str(t["D"]), "F": str(t["F"]), "TraceFile": q(tracefile),
+    d = {"D": str(t["D"]), "F": str(t["F"]), "H": str(t["H"]), "TraceFile": q(tracefile),
          "NatMap": c["NatMap"], "Reach": c["Reach"],
          "LocA": "{" + ", ".join(map(q, cfg["loc"]["A"] + [cfg["nat"][l] for l in cfg["loc"]["A"] if l in cfg["nat"]])) + "}",
          "Lite": c["Lite"], "CheckPrio": c["CheckPrio"], "MaxReq": str(cfg["maxReq"]),
